@@ -330,7 +330,7 @@ def run(ctx):
     for i in range(40 if ctx.quick else 400):
         k = rng.choice([1, 2, 3])
         chosen = [rng.choice(pool_m) for _ in range(k)]
-        games = {"g%d_%s" % (j, rng.choice(["a", "x_1", "no_prune"])): g for j, (g, _) in enumerate(chosen)}
+        games = {"g%d_%s" % (j, rng.choice(["a", "x_1", "no_prune", "se\u00f1al", "\u03b1\u03b2", "na\u00efve_1"])): g for j, (g, _) in enumerate(chosen)}
         metas = {nm: m for nm, (_, m) in zip(games, chosen)}
         if rng.random() < 0.3:
             games["fig_5_5"] = copy.deepcopy(gen_games.FIG55)
@@ -339,7 +339,8 @@ def run(ctx):
         text = repr(games) if form == 0 else (str(games).replace("], ", "],\n") if form == 1 else pretty_text(rng, games, metas))
         rjobs.append(dict(op="read_dict", text=text, name="t%d.py" % i))
         rmeta.append(("text:%d" % form, text))
-    for text in ("[1, 2]", "42", "'x'", "(1, 2)", "None", "{1, 2}", "{}", "{'a': 1}", "  {'a': {'rewards': [1/4, 5/3, 10**2, -1, 2*3, 1-0.5]}}\n"):
+    for text in ("[1, 2]", "42", "'x'", "(1, 2)", "None", "{1, 2}", "{}", "{'a': 1}", "  {'a': {'rewards': [1/4, 5/3, 10**2, -1, 2*3, 1-0.5]}}\n",
+                 "{'se\u00f1al_17_08': {'players': ['Player 1'], 'x': [('\u03b1', 0), ('\u00e9t\u00e9', 0)]}}"):
         rjobs.append(dict(op="read_dict", text=text, name="lit.py"))
         rmeta.append(("literal", text))
 
